@@ -282,7 +282,7 @@ def run_cases(draw):
             "prior": [[draw(st.integers(0, 10**6)), draw(st.integers(0, 20))], [draw(st.integers(0, 10**6)), draw(st.integers(0, 20))]],
             "earlier": draw(st.sampled_from(["nothing", "unseeded_run", "failing_run"])),
             "pygmo_seed": draw(st.one_of(st.sampled_from([0, 0, 1, 100000]), st.integers(0, 100000))),  # "all seeds": the ends of the accepted range too
-            "fail_at": draw(st.sampled_from([None, None, "mid"]))}
+            "fail_at": draw(st.sampled_from([None, None, "mid"])), "same_objects": draw(st.booleans())}
 
 
 def _run_spec(case, tmp, seeded=True, fail=False):
@@ -338,7 +338,8 @@ def _flatten(res):
 
 
 def body_runs(case, rec):
-    rec.cls(f"mode:{case['mode']}", f"earlier:{case['earlier']}", *[f"m:{k}" for k in case["models"]])
+    rec.cls(f"mode:{case['mode']}", f"earlier:{case['earlier']}", *[f"m:{k}" for k in case["models"]], "same_objects_run_twice" if case.get("same_objects") else "rebuilt_from_the_configuration")
+    shared_cfg = None
     rec.nt(case["prior"][0] != case["prior"][1])
     results = []
     for idx, (k, j) in enumerate(case["prior"]):
@@ -352,7 +353,13 @@ def body_runs(case, rec):
         before = _set_prior(k, j)
         res = None
         with rec.must_not_raise(f"seeded_run_failed[{case['mode']}]"):
-            res = pyx.run(pyx.build(_run_spec(case, rec.tmp)), with_inherited_coords=True)
+            if case.get("same_objects"):
+                # "repeating a run of the same configuration": the very same detector / pipeline / mode objects, run again
+                if idx == 0:
+                    shared_cfg = pyx.build(_run_spec(case, rec.tmp))
+                res = pyx.run(shared_cfg, with_inherited_coords=True)
+            else:
+                res = pyx.run(pyx.build(_run_spec(case, rec.tmp)), with_inherited_coords=True)
         after = np.random.get_state()
         if res is None:
             return
